@@ -95,7 +95,7 @@ def reverse_guard(lst):
     returns:
         list
     """
-    rev = {'<': '>=', '>': '=<', '>=': '<', '=<': '>'}
+    rev = {'<': '>=', '>': '=<', '>=': '<', '=<': '>', '=': '!='}
     return [rev[l] if l in rev else l for l in lst]
 
 
